@@ -5,12 +5,12 @@ go 1.21
 require (
 	github.com/CrowdStrike/csproto v0.0.0
 	github.com/CrowdStrike/csproto/example v0.0.0
+	google.golang.org/protobuf v1.36.4
 )
 
 require (
 	github.com/gogo/protobuf v1.3.2 // indirect
 	github.com/golang/protobuf v1.5.4 // indirect
-	google.golang.org/protobuf v1.36.4 // indirect
 )
 
 replace github.com/CrowdStrike/csproto => /repo
